@@ -225,3 +225,45 @@ mod tests {
         }
     }
 }
+
+/// Maximum nesting of JSON arrays and objects accepted in a message.
+///
+/// Messages of the protocol nest four levels deep at most. Deserialization
+/// recurses once per nesting level, so without a limit a message well within
+/// the size limits could overflow the stack of the thread parsing it.
+pub const MAX_JSON_NESTING: usize = 32;
+
+/// Check if arrays and objects in JSON text are nested deeper than `max`
+pub fn json_nesting_exceeds(bytes: &[u8], max: usize) -> bool {
+    let mut depth = 0usize;
+    let mut in_string = false;
+    let mut escaped = false;
+
+    for byte in bytes {
+        if in_string {
+            if escaped {
+                escaped = false;
+            } else if *byte == b'\\' {
+                escaped = true;
+            } else if *byte == b'"' {
+                in_string = false;
+            }
+        } else {
+            match byte {
+                b'"' => in_string = true,
+                b'{' | b'[' => {
+                    depth += 1;
+
+                    if depth > max {
+                        return true;
+                    }
+                }
+                b'}' | b']' => depth = depth.saturating_sub(1),
+                _ => (),
+            }
+        }
+    }
+
+    false
+}
+
